@@ -86,7 +86,8 @@ int main(int argc, char** argv) {
         auto key = [&](const char* k) { return "e" + std::to_string(ei) + "/p" + std::to_string(pi) + "/" + svn + "/" + k; };
         auto where = [&] { return E.name + " " + fx(P.lat1) + " " + fx(P.lon1) + " " + fx(P.lat2) + " " + fx(P.lon2) + " fam=" + P.fam + " " + svn; };
         auto bad = [&](const char* kind, const std::string& k2, const std::string& msg) {
-          ctx.fail(key((std::string(kind) + k2).c_str()), where() + ": " + msg, {{"kind", kind}, {"ell", E.name}, {"solver", svn}, {"family", std::string(1, P.fam)}});
+          char inp[160]; snprintf(inp, sizeof inp, "%.12g %.12g %.12g %.12g", P.lat1, P.lon1, P.lat2, P.lon2);
+          ctx.fail(key((std::string(kind) + k2).c_str()), where() + ": " + msg, {{"kind", kind}, {"ell", E.name}, {"solver", svn}, {"family", std::string(1, P.fam)}, {"input", inp}});
         };
         Res R;
         {
@@ -94,6 +95,9 @@ int main(int argc, char** argv) {
           R = S.inv(sv, P.lat1, P.lon1, P.lat2, P.lon2); ++ncalls;
           if (!finite(R)) { bad("nonfinite", "", "an output is not finite / not set: s12=" + fmt(R.s12) + " azi1=" + fmt(R.azi1) + " azi2=" + fmt(R.azi2) + " a12=" + fmt(R.a12)); continue; }
           base[sv] = R; have[sv] = true;
+          // nearly antipodal pairs: an excess of up to 64 x tolerance is classed separately (see known_findings.d/C02.json)
+          const bool nearanti = R.a12 >= 179.9 || fabsl(remainderl((ld)P.lon2 - (ld)P.lon1, 360.0L)) >= 179.9L;
+          auto acc = [&](const char* kind, ld err) { return (nearanti && err <= 64 * tol) ? "antipodal-accuracy" : kind; };
           // ---- ranges / shortest-path conditions that need no oracle
           if (R.s12 < 0) ctx.count("s12.negative_within_tolerance");
           if (!(R.s12 >= -tol)) bad("range", "s12", "s12 " + fx(R.s12) + " negative");
@@ -103,12 +107,12 @@ int main(int argc, char** argv) {
           Traj<ld> tf(E.e, 30, 1e-22L, 1.0L, false); tf.init(P.lat1, R.azi1); tf.advance((ld)R.s12 / E.e.a); Point<ld> pf = tf.point(); ++ntraj;
           ld d = 0; for (int i = 0; i < 3; ++i) { ld x = pf.r[i] - r2in1[i] * E.e.a; d += x * x; } d = sqrtl(d);
           ctx.worstf(std::string("forward_landing.err_over_tol.") + svn, (double)(d / tol), where);
-          if (!(d <= tol)) bad("forward", "", "following azi1=" + fx(R.azi1) + " for s12=" + fx(R.s12) + " from point 1 ends " + fmtl(d) + " m from point 2 (tol " + fmtl(tol) + ")");
+          if (!(d <= tol)) bad(acc("forward", d), "fwd", "following azi1=" + fx(R.azi1) + " for s12=" + fx(R.s12) + " from point 1 ends " + fmtl(d) + " m from point 2 (tol " + fmtl(tol) + ")");
           // ---- arrives with azi2: follow azi2 backwards from point 2
           Traj<ld> tb(E.e, 30, 1e-22L, 1.0L, false); tb.init(P.lat2, R.azi2); tb.advance(-(ld)R.s12 / E.e.a); Point<ld> pb = tb.point(); ++ntraj;
           ld db = 0; for (int i = 0; i < 3; ++i) { ld x = pb.r[i] - r1in2[i] * E.e.a; db += x * x; } db = sqrtl(db);
           ctx.worstf(std::string("backward_landing.err_over_tol.") + svn, (double)(db / tol), where);
-          if (!(db <= tol)) bad("backward", "", "following azi2=" + fx(R.azi2) + " backwards for s12=" + fx(R.s12) + " from point 2 ends " + fmtl(db) + " m from point 1 (tol " + fmtl(tol) + ")");
+          if (!(db <= tol)) bad(acc("backward", db), "bwd", "following azi2=" + fx(R.azi2) + " backwards for s12=" + fx(R.s12) + " from point 2 ends " + fmtl(db) + " m from point 1 (tol " + fmtl(tol) + ")");
           // arrival direction of the forward trajectory against azi2 (as unit vectors in R^3, the oracle tangent projected into the
           // tangent plane at point 2), weighted by |m12|
           {
@@ -132,7 +136,7 @@ int main(int argc, char** argv) {
           ld der, sg = geod_ode::dist_to_arc<ld>(E.e, pf, &der); dsd[sv] = der * D;
           ld ea = fabsl((ld)R.a12 - sg / D) * der * D;
           ctx.worstf(std::string("a12.err_over_tol.") + svn, (double)(ea / tol), where);
-          if (!(ea <= tol)) bad("a12", "", "a12 " + fx(R.a12) + " but the arc of the returned geodesic is " + fmtl(sg / D));
+          if (!(ea <= tol)) bad(acc("a12", ea), "a12", "a12 " + fx(R.a12) + " but the arc of the returned geodesic is " + fmtl(sg / D));
           if (ctx.want_sample() && P.fam == 'a') ctx.sample(where() + " -> s12=" + fmt(R.s12) + " azi1=" + fmt(R.azi1) + " azi2=" + fmt(R.azi2) + " | lands " + fmtl(d) + " m from point 2");
         }
         // ---- symmetry images
@@ -243,7 +247,7 @@ int main(int argc, char** argv) {
         for (size_t j = 0; j < n; ++j) {
           ld ex = (ld)dik - ((ld)d[i * n + j] + (ld)d[j * n + k]);
           if (ex > wt) wt = ex;
-          if (!(ex <= 3 * tol)) { Ctx::Case cs(ctx); ctx.fail("e" + std::to_string(ei) + "/" + svn + "/" + std::to_string(i) + "," + std::to_string(j) + "," + std::to_string(k) + "/tri", E.name + " " + svn + " triangle inequality: d" + nm(i) + nm(k) + " = " + fx(dik) + " > d" + nm(i) + nm(j) + " + d" + nm(j) + nm(k) + " = " + fx(d[i * n + j]) + " + " + fx(d[j * n + k]), {{"kind", "metric-triangle"}, {"ell", E.name}, {"solver", svn}}); }
+          if (!(ex <= 3 * tol)) { Ctx::Case cs(ctx); ctx.fail("e" + std::to_string(ei) + "/" + svn + "/" + std::to_string(i) + "," + std::to_string(j) + "," + std::to_string(k) + "/tri", E.name + " " + svn + " triangle inequality: d" + nm(i) + nm(k) + " = " + fx(dik) + " > d" + nm(i) + nm(j) + " + d" + nm(j) + nm(k) + " = " + fx(d[i * n + j]) + " + " + fx(d[j * n + k]), {{"kind", "metric-triangle"}, {"ell", E.name}, {"solver", svn}, {"edge_lon12", fmt((double)fabsl(remainderl((ld)pts[k].lon - (ld)pts[i].lon, 360.0L)))}, {"edge_lats_rounded", fmt(std::round(pts[i].lat)) + "," + fmt(std::round(pts[k].lat))}}); }
         }
         ntrip += n;
       }
